@@ -232,16 +232,19 @@ class Script:
                         print("extra items in the ScriptSig of a p2sh witness program")
                         return False
                     commands.extend(redeem_commands)
+                # a witness program is the whole ScriptPubKey or RedeemScript:
+                # nothing may be left to execute after it
+                is_program = len(commands) == 0 and len(stack) == 2
                 # witness program version 0 rule. if stack commands are:
                 # 0 <20 byte hash> this is p2wpkh
-                if len(stack) == 2 and stack[0] == b"" and len(stack[1]) == 20:
+                if is_program and stack[0] == b"" and len(stack[1]) == 20:
                     h160 = stack.pop()
                     stack.pop()
                     commands.extend(witness.items)
                     commands.extend(P2PKHScriptPubKey(h160).commands)
                 # witness program version 0 rule. if stack commands are:
                 # 0 <32 byte hash> this is p2wsh
-                elif len(stack) == 2 and stack[0] == b"" and len(stack[1]) == 32:
+                elif is_program and stack[0] == b"" and len(stack[1]) == 32:
                     s256 = stack.pop()
                     stack.pop()
                     commands.extend(witness.items[:-1])
@@ -257,7 +260,7 @@ class Script:
                     commands.extend(witness_script_commands)
                 # witness program version 1 rule. if stack commands are:
                 # 1 <32 byte hash> this is p2tr
-                elif len(stack) == 2 and stack[0] == b"\x01" and len(stack[1]) == 32:
+                elif is_program and stack[0] == b"\x01" and len(stack[1]) == 32:
                     if len(witness) == 0:
                         print("stack in witness v1 empty")
                         return False
